@@ -2,7 +2,6 @@
 import hashlib
 import importlib
 import json
-import multiprocessing as mp
 import os
 import sys
 import time
@@ -274,15 +273,6 @@ def run_item(item):
     }
 
 
-def _worker(item):
-    got = core.jobserver_acquire_blocking()
-    try:
-        return _worker2(item)
-    finally:
-        if got:
-            core.jobserver_release()
-
-
 def _worker2(item):
     dl = item.get("deadline")
     if dl is not None:
@@ -313,21 +303,150 @@ def _empty_result(item):
                 "wall_s": 0.0, "encoded": {}, "deferred": []}
 
 
+class _Proc(object):
+    __slots__ = ("pid", "tfd", "rfd", "buf", "idx", "started", "done")
+
+
+def _serve(items, tr, rw):
+    """worker process: item indices arrive on tr (4 bytes each), pickled results leave on rw"""
+    import pickle
+    import struct
+    n = 0
+    max_tasks = int(os.environ.get("PYSX_WORKER_TASKS", "24"))
+    max_rss = float(os.environ.get("PYSX_WORKER_RSS_MB", "1500"))
+    while n < max_tasks:
+        h = os.read(tr, 4)
+        if len(h) < 4:
+            break
+        i = struct.unpack("<i", h)[0]
+        try:
+            data = pickle.dumps(_worker2(items[i]))
+        except BaseException:
+            er = _empty_result(items[i])
+            er["error"] = traceback.format_exc()
+            data = pickle.dumps(er)
+        n += 1
+        last = n >= max_tasks or core._rss_mb() > max_rss
+        data = struct.pack("<iB", len(data), 1 if last else 0) + data
+        off = 0
+        while off < len(data):
+            off += os.write(rw, data[off:off + (1 << 16)])
+        sys.stdout.flush()
+        sys.stderr.flush()
+        if last:
+            break
+
+
 def run_items(items, jobs=None):
+    """Run items in forked worker processes, at most `jobs` at a time.  Workers are reused (their
+    caches of character classes and parsed sources are expensive) and retire after a number of
+    tasks or above a memory mark.  A worker that dies without reporting (crash, kill) or overruns
+    its item's budget by far yields a harness error for that item instead of hanging the run."""
+    import pickle
+    import select
+    import signal
+    import struct
     jobs = jobs or min(16, os.cpu_count() or 4)
-    if core._JOBS is None:
-        core.jobserver_init(jobs)
     if len(items) == 1 or jobs == 1:
-        return [_worker(it) for it in items]
-    ctx = mp.get_context("fork")
-    # longest first
+        return [_worker2(it) for it in items]
     order = sorted(range(len(items)), key=lambda i: -items[i].get("weight", 1))
-    with ctx.Pool(min(jobs, len(items)), maxtasksperchild=8) as pool:
-        res = pool.map(_worker, [items[i] for i in order], chunksize=1)
-    out = [None] * len(items)
-    for i, r in zip(order, res):
-        out[i] = r
-    return out
+    results = [None] * len(items)
+    procs = {}        # rfd -> _Proc
+    grace = 180.0
+    default_budget = float(os.environ.get("PYSX_ITEM_BUDGET_S", "900"))
+
+    def spawn():
+        tr, tw = os.pipe()
+        rr, rw = os.pipe()
+        sys.stdout.flush()
+        sys.stderr.flush()
+        pid = os.fork()
+        if pid == 0:
+            code = 0
+            try:
+                os.close(tw)
+                os.close(rr)
+                for q in procs.values():
+                    os.close(q.tfd)
+                    os.close(q.rfd)
+                _serve(items, tr, rw)
+            except BaseException:
+                code = 1
+            finally:
+                os._exit(code)
+        os.close(tr)
+        os.close(rw)
+        p = _Proc()
+        p.pid, p.tfd, p.rfd, p.buf, p.idx, p.started, p.done = pid, tw, rr, b"", None, 0.0, False
+        procs[rr] = p
+        return p
+
+    def give(p):
+        p.idx = order.pop(0)
+        p.started = time.time()
+        os.write(p.tfd, struct.pack("<i", p.idx))
+
+    def retire(p, failed):
+        del procs[p.rfd]
+        for fd in (p.tfd, p.rfd):
+            try:
+                os.close(fd)
+            except OSError:
+                pass
+        try:
+            os.waitpid(p.pid, 0)
+        except ChildProcessError:
+            pass
+        if failed and p.idx is not None:
+            res = _empty_result(items[p.idx])
+            res["error"] = "the worker process running this item died without reporting"
+            results[p.idx] = res
+
+    while order or any(p.idx is not None for p in procs.values()):
+        for p in list(procs.values()):
+            if p.idx is None and order:
+                give(p)
+        while order and len(procs) < jobs:
+            give(spawn())
+        busy = [p.rfd for p in procs.values() if p.idx is not None]
+        ready, _, _ = select.select(busy, [], [], 2.0)
+        for r in ready:
+            p = procs[r]
+            chunk = os.read(r, 1 << 20)
+            if not chunk:
+                retire(p, True)
+                continue
+            p.buf += chunk
+            if len(p.buf) >= 5:
+                n, last = struct.unpack("<iB", p.buf[:5])
+                if len(p.buf) >= 5 + n:
+                    try:
+                        results[p.idx] = pickle.loads(p.buf[5:5 + n])
+                    except Exception:
+                        res = _empty_result(items[p.idx])
+                        res["error"] = "unreadable result from worker"
+                        results[p.idx] = res
+                    p.buf = b""
+                    p.idx = None
+                    if last:
+                        retire(p, False)
+        now = time.time()
+        for p in list(procs.values()):
+            if p.idx is None:
+                continue
+            it = items[p.idx]
+            limit = it.get("budget_s", default_budget)
+            dl = it.get("deadline")
+            if dl is not None:
+                limit = min(limit, max(30.0, dl - p.started))
+            if now - p.started > limit + grace:
+                try:
+                    os.kill(p.pid, signal.SIGKILL)
+                except ProcessLookupError:
+                    pass
+    for p in list(procs.values()):
+        retire(p, False)
+    return results
 
 
 # ---------------------------------------------------------------------------
